@@ -398,3 +398,172 @@ func (p *Prog) funcTrueAlternatives(fn *ssa.Function, depth int) []factSet {
 	}
 	return out
 }
+
+// fieldCellStores: for a load of a field cell of a function-local struct (alloc.f, alloc.g.f, …)
+// returns every value stored into that same cell in the function (nil if the load is not of that
+// shape).
+func fieldCellStores(load *ssa.UnOp) []ssa.Value {
+	if load.Op != token.MUL {
+		return nil
+	}
+	fa, ok := load.X.(*ssa.FieldAddr)
+	if !ok {
+		return nil
+	}
+	ak := addrKey(fa)
+	if ak == "" {
+		return nil
+	}
+	var out []ssa.Value
+	for _, b := range load.Parent().Blocks {
+		for _, in := range b.Instrs {
+			if st, ok := in.(*ssa.Store); ok && addrKey(st.Addr) == ak {
+				out = append(out, st.Val)
+			}
+		}
+	}
+	return out
+}
+
+// structFieldSources: the values a field of a struct produced by a repository call can hold:
+// v is `call(...).f` (struct returned by value, possibly through an Extract) or a load of
+// `&ptr.f` where ptr is the pointer result of a repository call. The callee's returned struct must
+// be a local allocation; the result is every value the callee stores into that field.
+func (p *Prog) structFieldSources(v ssa.Value) []ssa.Value {
+	var base ssa.Value
+	field := ""
+	switch x := v.(type) {
+	case *ssa.Field:
+		base, field = x.X, fieldName(x)
+	case *ssa.UnOp:
+		if x.Op != token.MUL {
+			return nil
+		}
+		fa, ok := x.X.(*ssa.FieldAddr)
+		if !ok {
+			return nil
+		}
+		base, field = fa.X, fieldName(fa)
+	default:
+		return nil
+	}
+	// base: a call result (or extract of one), possibly through a local variable cell
+	var rets []ssa.Value
+	switch b := base.(type) {
+	case *ssa.Call, *ssa.Extract:
+		rets = p.stepOut(b)
+	case *ssa.UnOp:
+		if b.Op == token.MUL {
+			if a, ok := b.X.(*ssa.Alloc); ok {
+				for _, r := range refs(a) {
+					if st, ok := r.(*ssa.Store); ok && st.Addr == ssa.Value(a) {
+						rets = append(rets, p.stepOut(st.Val)...)
+					}
+				}
+			}
+		}
+	case *ssa.Alloc:
+		// a local struct variable assigned as a whole from a helper's result: pods := classify(...)
+		for _, r := range refs(b) {
+			if st, ok := r.(*ssa.Store); ok && st.Addr == ssa.Value(b) {
+				switch st.Val.(type) {
+				case *ssa.Call, *ssa.Extract:
+					rets = append(rets, p.stepOut(st.Val)...)
+				}
+			}
+		}
+	case *ssa.Parameter:
+		// a struct (or pointer to one) received as parameter: the arguments at the call sites
+		for _, a := range p.stepOut(b) {
+			switch a.(type) {
+			case *ssa.Call, *ssa.Extract:
+				rets = append(rets, p.stepOut(a)...)
+			}
+		}
+	}
+	var out []ssa.Value
+	for _, r := range rets {
+		var alloc *ssa.Alloc
+		switch y := r.(type) {
+		case *ssa.Alloc:
+			alloc = y
+		case *ssa.UnOp:
+			if y.Op == token.MUL {
+				alloc, _ = y.X.(*ssa.Alloc)
+			}
+		}
+		if alloc == nil {
+			continue
+		}
+		for _, rr := range refs(alloc) {
+			if fa, ok := rr.(*ssa.FieldAddr); ok && fieldName(fa) == field {
+				for _, r2 := range refs(fa) {
+					if st, ok := r2.(*ssa.Store); ok && st.Addr == ssa.Value(fa) {
+						out = append(out, st.Val)
+					}
+				}
+			}
+		}
+	}
+	return out
+}
+
+// appendSitesIP collects the builtin append calls in the backward closure of a slice value,
+// following local variable cells, field cells of local structs, struct fields of values returned
+// by repository helpers, helper results and parameters (so a candidate list built in a helper
+// and handed back in a struct is found). The calls may belong to other functions.
+func (p *Prog) appendSitesIP(v ssa.Value) []*ssa.Call {
+	var out []*ssa.Call
+	seen := map[ssa.Value]bool{}
+	var rec func(v ssa.Value, d int)
+	rec = func(v ssa.Value, d int) {
+		if v == nil || seen[v] || d > 40 {
+			return
+		}
+		seen[v] = true
+		switch x := v.(type) {
+		case *ssa.Phi:
+			for _, e := range x.Edges {
+				rec(e, d+1)
+			}
+			return
+		case *ssa.Call:
+			if b, ok := x.Call.Value.(*ssa.Builtin); ok && b.Name() == "append" {
+				out = append(out, x)
+				rec(x.Call.Args[0], d+1)
+				return
+			}
+		case *ssa.Slice:
+			rec(x.X, d+1)
+			return
+		case *ssa.UnOp:
+			if x.Op == token.MUL {
+				if a, ok := x.X.(*ssa.Alloc); ok {
+					for _, rr := range refs(a) {
+						if st, ok := rr.(*ssa.Store); ok && st.Addr == ssa.Value(a) {
+							rec(st.Val, d+1)
+						}
+					}
+					return
+				}
+				if vs := fieldCellStores(x); vs != nil {
+					for _, s := range vs {
+						rec(s, d+1)
+					}
+					return
+				}
+			}
+		}
+		if vs := p.structFieldSources(v); len(vs) > 0 {
+			for _, s := range vs {
+				rec(s, d+1)
+			}
+			return
+		}
+		for _, s := range p.stepOut(v) {
+			rec(s, d+1)
+		}
+	}
+	rec(v, 0)
+	return out
+}
